@@ -7,16 +7,24 @@ import numpy as np
 
 from harness.core import R, close
 
-METRICS = ["sel", "tpr", "fpr", "fnr", "tnr", "acc", "prec", "zol"]
+METRICS = ["sel", "tpr", "fpr", "fnr", "tnr", "acc", "prec", "zol", "smean"]
+SIGNED = {"smean"}
 # group id -> concrete label; sort order (alphabetical) differs from the id order
 GLABEL = {1: "m_one", 2: "z_two", 3: "a_three", 4: "k_four", 5: "b_five"}
 CLABEL = {1: "q1", 2: "c2", 3: "x3"}
 
 
 def frame_cfg(N, G, W, S, emit, nshards=1, shard=0, sim=False, laws=True):
-    inv = (["LawAggregates", "LawWeightedMean", "LawPartition", "LawUnitWeights"] if laws else []) + ["EmitInv"]
+    inv = (["LawAggregates", "LawSigned", "LawWeightedMean", "LawPartition", "LawUnitWeights"] if laws else []) + ["EmitInv"]
     return (f"CONSTANTS N = {N} G = {G} W = {W} S = {S} Emit = {'TRUE' if emit else 'FALSE'} NShards = {nshards} Shard = {shard}\n"
             f"INIT Init\nNEXT {'NextSim' if sim else 'Next'}\n" + "".join(f"INVARIANT {i}\n" for i in inv) + "CHECK_DEADLOCK FALSE\n")
+
+
+def signed_mean(y_true, y_pred, sample_weight=None):
+    """a SIGNED metric: weighted mean of (2*pred - 1) * (1 + y)"""
+    v = (2 * np.asarray(y_pred, dtype=float) - 1) * (1 + np.asarray(y_true, dtype=float))
+    w = np.ones(len(v)) if sample_weight is None else np.asarray(sample_weight, dtype=float)
+    return float(np.dot(v, w) / w.sum())
 
 
 def metric_fns():
@@ -27,7 +35,7 @@ def metric_fns():
     prec.__name__ = "precision0"
     return {"sel": fm.selection_rate, "tpr": fm.true_positive_rate, "fpr": fm.false_positive_rate,
             "fnr": fm.false_negative_rate, "tnr": fm.true_negative_rate, "acc": skm.accuracy_score,
-            "prec": prec, "zol": skm.zero_one_loss}
+            "prec": prec, "zol": skm.zero_one_loss, "smean": signed_mean}
 
 
 def order_for(case_rows, seed, which):
